@@ -4,8 +4,8 @@
    the object holds (the complete state, hence every observable: values, nested subfields, re-packed bytes, JSON),
    for objects in a clean state: every subfield / data element that is not set is as new. Clean is the invariant of
    the objects the library builds: new objects are clean, and Unpack (also a failing one) and UnsetField keep it
-   (C10_*_clean); for the other writers (setters, Marshal, JSON, unset by path) it is checked by the correspondence on
-   histories, not proved. This rests on the repairs F12 (presence sets are reset), F28 (what was set is re-created)
+   (C10_*_clean) and the setters by id; for the other writers (Marshal, JSON, unset by path) it is checked by the
+   correspondence on histories, not proved. This rests on the repairs F12 (presence sets are reset), F28 (what was set is re-created)
    and F30 (what failed is re-created); track fields: model and search only. *)
 From Iso Require Import Model.Base Model.Padding Model.Encoding Model.Prefix Model.Bitmap Model.Spec Model.Field Model.Message
      Proofs.BaseLemmas Proofs.FieldProofs Proofs.CompositeProofs Proofs.MessageRoundtrip Proofs.IndependenceProofs Properties.C01.
@@ -46,6 +46,10 @@ Theorem C10_unpack_clean :
   (forall S m id, NoDup (map fst (ms_fields S)) -> (forall i s, In (i, s) (ms_fields S) -> 2 <= i) -> msg_clean S m -> msg_clean S (m_unset S m id)).
 Proof. split; [exact unpack_f_clean|split; [exact m_unpack_clean|exact m_unset_clean]]. Qed.
 Print Assumptions C10_unpack_clean.
+
+Theorem C10_set_field_clean : forall S m id val, msg_clean S m -> msg_clean S (fst (m_set_field S m id val)).
+Proof. exact m_set_field_clean. Qed.
+Print Assumptions C10_set_field_clean.
 
 (* a tagged composite that was populated with both subfields and is then used to unpack only one of them shows
    exactly that one (the F12 scenario), and holds nothing of what it held before (F28: Unpack discards the
